@@ -198,7 +198,10 @@ pub fn dash_path(path: &Path, dash_array: &[f32], mut dash_offset: f32) -> Path 
                     initial_segment = Vec::new();
                     cur_pt = Some(start_point);
 
-                    // reset the dash state
+                    // A drawing command that follows continues from the start point as a new subpath:
+                    // reset the dash state and the first-piece bookkeeping as a MoveTo does
+                    is_first_segment = true;
+                    first_dash = true;
                     state = initial;
                 } else {
                     cur_pt = None;
